@@ -70,21 +70,29 @@ let run_pppoe (rt : bool) (rep : vr) (flav : string) (toks : string list) : stri
     let mons = Array.make 3 (Some mon0) in
     let mon = ref "ok" in
     let steps = List.map (fun tok ->
-      match event_of tok with
+      (* R:<i>:<proto>:<kind>&a:<k>:<akind> — the frame is processed under the session lock while the answer, already
+         matched by its pending id, waits for that lock.  handleAAAResponse re-checks the pending id under the lock,
+         so this is the frame and then the answer: the two model steps, outputs concatenated. *)
+      let evl = (if String.length tok > 2 && String.sub tok 0 2 = "R:" then
+                   (match String.split_on_char '&' (String.sub tok 2 (String.length tok - 2)) with
+                    | [a; b] -> (match event_of ("f:" ^ a), event_of b with Some x, Some y -> Some [x; y] | _ -> None)
+                    | _ -> None)
+                 else (match event_of tok with Some e -> Some [e] | None -> None)) in
+      match evl with
       | None -> "badev:" ^ tok
-      | Some e ->
-        let st_before = !st in
-        let (st', outs) = step rep !st e in
-        st := st';
-        Array.iteri (fun i m -> match m with
-          | None -> ()
-          | Some m -> mons.(i) <- mon_run (nat_of_int i) [(e, outs)] m;
-
-            if mons.(i) = None && !mon = "ok" then mon := "VIOLATION@" ^ string_of_int i) mons;
+      | Some el ->
+        let outs = List.concat_map (fun e ->
+          let (st', outs) = step rep !st e in
+          st := st';
+          Array.iteri (fun i m -> match m with
+            | None -> ()
+            | Some m -> mons.(i) <- mon_run (nat_of_int i) [(e, outs)] m;
+              if mons.(i) = None && !mon = "ok" then mon := "VIOLATION@" ^ string_of_int i) mons;
+          outs) el in
         let os = List.filter_map (fun (i, o) -> match show_out o with
           | None -> None
           | Some s -> Some ((if int_of_nat i >= 3 then "?" else string_of_int (int_of_nat i)) ^ s)) outs in
-        String.concat "," os ^ "|" ^ String.concat "," (List.map show_sess st'.sl) ^ "|" ^ string_of_int (int_of_nat st'.free)) evs in
+        String.concat "," os ^ "|" ^ String.concat "," (List.map show_sess !st.sl) ^ "|" ^ string_of_int (int_of_nat !st.free)) evs in
     String.concat " ; " (("fsm=" ^ flav) :: steps) ^ " ; MON:" ^ !mon
   | [] -> "badcase"
 (* ---------------- IPoE ----------------
